@@ -81,6 +81,16 @@ def _fixed_rounds_at_last_decimal(ctx, rep):
 
 
 def check(ctx, rep):
+    # scientific fields: to_decimal may return one digit more than asked for when rounding carries; the digit string is then cut to
+    # the field, so the radix position has to move with the extra digit (or 9.96 in ##.#^^^^ is shown as a tenth of its value)
+    sc = ctx.fn('pcbasic/basic/values/numbers.py:Float.to_str_scientific')
+    fls_ = ctx.flow(sc)
+    adj = [a for a in own_nodes(sc) if isinstance(a, ast.AugAssign) and norm(a.target) == 'radix_position' and isinstance(a.op, ast.Add)]
+    ok_ = len(adj) == 1 and 'len(digitstr)' in norm(adj[0].value) and 'work_digits' in norm(adj[0].value) \
+        and any(f.pol and 'len(digitstr) > work_digits' in f.text for f in fls_.facts(adj[0]))
+    cut = [a for a in own_nodes(sc) if isinstance(a, ast.Assign) and norm(a.targets[0]) == 'digitstr' and '[:digits_requested]' in norm(a.value)]
+    rep.ob('scientific.exponent-follows-a-carried-digit', 'to_str_scientific moves the radix position by the extra digit of a carried rounding, before the digits are cut to the field',
+           ok_ and len(cut) == 1 and adj[0].lineno < cut[0].lineno, '', ctx.where(sc))
     # an integer is promoted before formatting with to_float(), which leaves a double a double: the digits of a double field
     # come from the double
     nf_ = ctx.fn('pcbasic/basic/devices/formatter.py:NumberField.format')
@@ -211,6 +221,8 @@ def variants(ctx):
         return lambda tree: f(mu.find_def(tree, f_name))
 
     return [
+        mu.Variant('carried-digit-cut-without-moving-the-exponent', 'break', 'pcbasic/basic/values/numbers.py',
+                   lambda tree: mu.remove_stmt(mu.find_def(tree, 'Float.to_str_scientific'), lambda st: isinstance(st, ast.If) and 'len(digitstr) > work_digits' in norm(st.test)), expect='scientific.exponent-follows-a-carried-digit'),
         mu.Variant('doubles-formatted-as-singles', 'break', 'pcbasic/basic/devices/formatter.py',
                    lambda tree: mu.replace_expr(mu.find_def(tree, 'NumberField.format'), mu.text_is('value.to_float()'), 'value.to_single()'), expect='format.double-keeps-its-precision'),
         mu.Variant('leading-group-always-added', 'break', 'pcbasic/basic/values/numbers.py',
